@@ -405,6 +405,8 @@ class History(Driver):
                 if match is None:
                     raise Mismatch('state:next_packet:unknown-packet', 'iterator delivered a packet the model does not hold (or twice): %s' % D._short(got))
                 remaining.remove(match)
+                if rng.random() < 0.25:
+                    self.bystander_call(ci, cont, ml)
                 act = rng.choice(['keep', 'keep', 'update', 'remove', 'update-foreign'])
                 if act == 'update-foreign':
                     # an item of the loop first, then one that is not the loop's: refused as a whole, nothing written
@@ -537,6 +539,74 @@ class History(Driver):
             self.ctx.count('recreate_after_prune')
         finally:
             L.container_free(ch)
+
+    def bystander_call(self, ci, cont, ml):
+        """While an iterator is open on loop `ml`: a read-only call on something else, or the request for a second
+        iterator on another loop.  Whatever it answers, the open iterator's transaction, position and pending changes
+        are not its business (the rest of the walk and the model comparison after close / abort show the damage)."""
+        L, rng = self.L, self.rng
+        p, m = self.cifs[ci]
+        others = [(c, l) for c in m.containers() for l in c.loops if l is not ml]
+        which = rng.choice(['names', 'names', 'category', 'second-iterator', 'second-iterator', 'all-blocks', 'all-frames'])
+        label = which
+        if which in ('names', 'category', 'second-iterator'):
+            if not others:
+                return
+            c2, l2 = rng.choice(others)
+            ch2 = self.open_container(ci, c2)
+            lh2 = None
+            try:
+                lh2 = self.open_loop(ci, c2, l2, ch2)
+                if which == 'names':
+                    rc, nm = L.loop_get_names(lh2)
+                    self.expect('cif_loop_get_names(during iteration)', rc, {CIF_OK})
+                    if sorted(nm) != sorted(o for o, _ in l2.names):
+                        raise Mismatch('state:loop_get_names:spelling', 'names %r, model %r (asked while another loop is iterated)' % (nm, l2.names))
+                elif which == 'category':
+                    rc, cat = L.loop_get_category(lh2)
+                    self.expect('cif_loop_get_category(during iteration)', rc, {CIF_OK})
+                    if cat != l2.category:
+                        raise Mismatch('state:loop_get_category:value', 'category %r, model %r' % (cat, l2.category))
+                else:
+                    rc, it2 = L.loop_get_packets(lh2)
+                    self.note('cif_loop_get_packets(second iterator) -> %d' % rc)
+                    if rc == CIF_OK:
+                        # not what this implementation does, and not forbidden: finish it at once
+                        self.ctx.count('second_iterators_granted')
+                        L.it_close(it2)
+                    else:
+                        self.expect('cif_loop_get_packets(second iterator)', rc, {CIF_ERROR} if l2.packets else {CIF_ERROR, CIF_EMPTY_LOOP})
+            finally:
+                if lh2:
+                    L.loop_free(lh2)
+                L.container_free(ch2)
+        elif which == 'all-blocks':
+            rc, hs = L.get_all_blocks(p)
+            codes = []
+            for h in hs:
+                codes.append(L.get_code(h)[1])
+                L.container_free(h)
+            self.expect('cif_get_all_blocks(during iteration)', rc, {CIF_OK})
+            if sorted(codes) != sorted(b.code for b in m.blocks):
+                raise Mismatch('state:get_all_blocks:set', 'blocks %r, model %r' % (sorted(codes), sorted(b.code for b in m.blocks)))
+        else:
+            c2 = rng.choice(m.containers())
+            ch2 = self.open_container(ci, c2)
+            try:
+                rc, hs = L.get_all_frames(ch2)
+                codes = []
+                for h in hs:
+                    codes.append(L.get_code(h)[1])
+                    L.container_free(h)
+                self.expect('cif_container_get_all_frames(during iteration)', rc, {CIF_OK})
+                if sorted(codes) != sorted(f.code for f in c2.frames):
+                    raise Mismatch('state:get_all_frames:set', 'frames %r, model %r' % (sorted(codes), sorted(f.code for f in c2.frames)))
+            finally:
+                L.container_free(ch2)
+        if L.in_transaction(p) != 1:
+            raise Mismatch('autocommit:%s:enclosing-transaction-lost' % label,
+                           'a %s call made while a packet iterator was open ended the iterator\'s transaction' % label)
+        self.ctx.count('calls_made_during_iteration')
 
     def stale_loop(self, ci, cont):
         """operations through a loop handle whose loop no longer exists must fail and change nothing"""
